@@ -3861,23 +3861,6 @@ class NonTensorStack(LazyStackedTensorDict):
         if inplace and self.is_locked and not (self._is_shared or self._is_memmap):
             raise RuntimeError(_LOCK_ERROR)
 
-        if isinstance(input_dict_or_td, NonTensorData):
-            datalist = input_dict_or_td.data
-            for d in reversed(self.batch_size):
-                datalist = [datalist] * d
-            reconstructed = self._from_list(
-                datalist, device=self.device, ndim=self.ndim
-            )
-            return self.update(
-                reconstructed,
-                clone=clone,
-                inplace=inplace,
-                keys_to_update=keys_to_update,
-                is_leaf=is_leaf,
-                update_batch_size=update_batch_size,
-                ignore_lock=ignore_lock,
-            )
-
         memmap = False
         if self._is_memmap and hasattr(self, "_path_to_memmap"):
             if break_on_memmap is None:
@@ -3895,10 +3878,14 @@ class NonTensorStack(LazyStackedTensorDict):
             memmap = True
 
         # update content
-        if isinstance(input_dict_or_td, NonTensorStack):
-            for leaf_dest, leaf_src in _zip_strict(
-                self.tensordicts, input_dict_or_td.unbind(self.stack_dim)
-            ):
+        if isinstance(input_dict_or_td, (NonTensorData, NonTensorStack)):
+            if isinstance(input_dict_or_td, NonTensorData):
+                # one value for every position: each member takes it as it is (a member with
+                # batch dims holds one value and would refuse a nested stack of copies)
+                sources = [input_dict_or_td] * len(self.tensordicts)
+            else:
+                sources = input_dict_or_td.unbind(self.stack_dim)
+            for leaf_dest, leaf_src in _zip_strict(self.tensordicts, sources):
                 leaf_dest._update(
                     leaf_src,
                     clone=clone,
